@@ -388,6 +388,12 @@ func runHarness(cfg *RunConfig) (*RunResult, error) {
 						if !r.HasVec && pr.HasModel {
 							r.Vector, r.HasVec = pr.Vector, true
 						}
+						// thousands of paths failing the same assertion: the verdict will
+						// not change, stop exploring (the run is marked incomplete)
+						if r.Count >= 5000 && r.HasVec && (len(queue) > 0 || active > 0) {
+							incon[fmt.Sprintf("exploration stopped after %d paths violating the same assertion", r.Count)] = true
+							stop = true
+						}
 					} else {
 						vio[key] = &ViolationRec{Violation: *v, Harness: cfg.Harness, Count: 1, Vector: pr.Vector, HasVec: pr.HasModel, Key: key}
 					}
